@@ -460,6 +460,9 @@ func genC13(e *emitter, r *rng, tier string) {
 		}
 		k := r.pick([]int{1, 5, 40, 100, 101, 250})
 		for v := 1; v <= 3; v++ {
+			if e.exhausted() {
+				return
+			}
 			res := guarded(30*time.Second, func() string {
 				nn := newRat(v, num, den)
 				if nn.IsZero() {
@@ -572,7 +575,10 @@ func genC05(e *emitter, r *rng, tier string) {
 			desc = "X" + desc // different Numbers (same value) used concurrently: they must not share state
 		}
 		for v := 1; v <= 3; v++ {
-			res := guarded(30*time.Second, func() string { return runConc(v, desc, progs) })
+			if e.exhausted() {
+				return
+			}
+			res := guarded(20*time.Second, func() string { return runConc(v, desc, progs) })
 			if res == "hang" {
 				res = "!!hang"
 			}
